@@ -6,8 +6,12 @@ import itertools
 
 from ..core import Check, classify_exc, run_async
 from ..g import g_Z, g_list, g_str, g_opt
+from .. import scope_lib as L
+from ..scope_lib import P, lit, out, assign, text
+from . import c14 as C14
 
 IMPORTS = "PyPrims MacroArgs"
+PIMPORTS = "PyPrims Scope MacroCall"
 
 _ENV = None
 
@@ -233,20 +237,440 @@ def gen_withs(ck: Check):
         yield globs, rbody(0) + [("print", n) for n in names]
 
 
+# --------------------------------------------------------------------- argument lists with a missing comma (strict mode)
+def gen_seps():
+    """call tags whose argument list lacks a comma somewhere, or uses `=` where keyword assignment is off: the documented
+    syntax is a comma separated list of `expr` / `name: expr`; in strict mode such a tag is a syntax error -- it must not render
+    with the arguments after the gap silently dropped."""
+    items = ["1", "2", "a: 3", "b: 4", "x: 5", "'s'", "y"]
+    for n in (2, 3):
+        for args in itertools.permutations(items[:5], n):
+            for seps in itertools.product([", ", " "], repeat=n - 1):
+                yield list(args), list(seps)
+    for args in (["a = 1"], ["1", "b = 2"], ["a: 1 | upcase"], ["1 | upcase"], ["'s' 't'"], ["y z"], ["(1..2) 3"], ["1", "2", "a: 3 4"]):
+        yield args, [", "] * (len(args) - 1)
+
+
+def sep_source(args, seps):
+    body = "a={{ a }};b={{ b }};args={% for v in args %}{{ v }},{% endfor %};kwargs={% for kv in kwargs %}{{ kv[0] }}={{ kv[1] }},{% endfor %};"
+    txt = args[0] + "".join(s_ + a for s_, a in zip(seps, args[1:]))
+    return "{% macro m a, b %}" + body + "{% endmacro %}{% call m " + txt + " %}"
+
+
+def sep_reference(args, seps):
+    import re
+    if any(s_ != ", " for s_ in seps) or not all(re.fullmatch(r"(\w+: )?(\d+|'\w*'|\w+)", a) for a in args):
+        return ("err", "ESyntax")
+    pos = [a for a in args if ": " not in a]
+    kws = [tuple(a.split(": ")) for a in args if ": " in a]
+    val = lambda t: {"y": "905"}.get(t, t.strip("'"))  # noqa: E731
+    case = ([("a", None), ("b", None)], [val(p) for p in pos], [(k, val(v)) for k, v in kws], 0, False)
+    return ("out", ref_call(case))
+
+
+# ===================================================================== programs (MacroCall.v over the values of Scope.v)
+# The AST is scope_lib's; a call node's argument list holds (name, expr) pairs in SOURCE order, a pair whose name is ''
+# is a positional argument.  Values are nil / booleans / integers / strings / arrays / hashes.
+DATA = {"a": 901, "b": "Bs", "x": "Gx", "y": [1, "two"], "h": {"k": "hv", "n": 5}, "t": True, "n": None}
+PARAM_NAMES = ["a", "b", "c"]
+LIQUID_ERRS = ("EUndefined", "ENotFound", "EDisabledTag", "ESyntax", "EType", "EContextDepth")
+
+
+def p_body_src(body):
+    return "".join(p_node_src(n) for n in body)
+
+
+def p_node_src(n):
+    t = n[0]
+    if t == "call":
+        args = ", ".join(L.expr_src(e) if k == "" else f"{k}: {L.expr_src(e)}" for k, e in n[2])
+        return "{% call " + n[1] + (" " + args if args else "") + " %}"
+    if t == "capture":
+        return "{% capture " + n[1] + " %}" + p_body_src(n[2]) + "{% endcapture %}"
+    if t == "if":
+        els = "{% else %}" + p_body_src(n[3]) if n[3] else ""
+        return "{% if " + L.cond_src(n[1]) + " %}" + p_body_src(n[2]) + els + "{% endif %}"
+    if t == "for":
+        it = L.path_src(n[2][1]) if n[2][0] == "ipath" else f"({n[2][1]}..{n[2][2]})"
+        els = "{% else %}" + p_body_src(n[4]) if n[4] else ""
+        return "{% for " + n[1] + " in " + it + " %}" + p_body_src(n[3]) + els + "{% endfor %}"
+    if t == "with":
+        return "{% with " + L.kwargs_src(n[1]) + " %}" + p_body_src(n[2]) + "{% endwith %}"
+    if t == "macro":
+        ps = ", ".join(p if d is None else f"{p}: {L.expr_src(d)}" for p, d in n[2])
+        return "{% macro " + n[1] + (" " + ps if ps else "") + " %}" + p_body_src(n[3]) + "{% endmacro %}"
+    return L.node_src(n)
+
+
+def p_sources(case):
+    return {"template": p_body_src(case["body"]), "partials": {k: p_body_src(b) for k, b in case["loader"].items()}}
+
+
+def p_json(case):
+    d = {k: case[k] for k in ("mode", "uk", "args", "matter", "tglobals", "eglobals")}
+    d["flags"] = [False, False]
+    d.update(p_sources(case))
+    return d
+
+
+def p_render(case, use_async):
+    s = p_sources(case)
+    return L.render_sources(s["template"], s["partials"], case["args"], case["matter"], case["tglobals"], case["eglobals"],
+                            case["mode"], case["uk"], use_async)
+
+
+class Ref27(C14.Ref):
+    """The documented behaviour (docs/optional_tags.md: macro and call, with), written independently of macro_tag.py,
+    _with.py and of MacroCall.v, on top of the scope rules of C14's reference:
+      macro: (re)defines the name when the tag is rendered, nothing is evaluated then;
+      call:  an undefined name renders as the undefined value; else parameter i gets the LAST keyword argument of its name,
+             else the i-th positional argument, else its default, else undefined; args = the positional arguments beyond the
+             parameters, kwargs = the keyword arguments that name no parameter (a repeated name: first position, last value);
+             every expression, defaults included, is evaluated where the call stands, when it is rendered; the block then runs in
+             a scope of its own (arguments + global data) and can call the macros defined so far;
+      with:  its arguments are evaluated outside the block, visible inside only;
+      lax mode: an error ends the top-level tag of the template (or partial) it occurs in; the rest is rendered normally."""
+
+    def __init__(self, case):
+        self.case = case
+        self.uk = case["uk"]
+        self.lax = case["mode"] != "strict"
+
+    def template(self, ctx, body, buf, top):
+        for n in body:
+            try:
+                try:
+                    self.node(ctx, n, buf)
+                except C14.RefInterrupt:
+                    if not top:
+                        raise
+                    raise C14.RefError("ESyntax") from None
+            except C14.RefError as e:
+                if self.lax and e.cls in LIQUID_ERRS:
+                    continue
+                raise
+
+    def node(self, ctx, n, buf):
+        if n[0] == "render" and n[2] is None:
+            if n[1] not in self.case["loader"]:
+                raise C14.RefError("ENotFound")
+            sub = C14.RCtx([self.kwargs(ctx, n[3])] + ctx.base, ctx.base, True)
+            self.template(sub, self.case["loader"][n[1]], buf, top=True)
+            return
+        if n[0] != "call":
+            super().node(ctx, n, buf)
+            return
+        if n[1] not in ctx.macros:
+            buf.append(C14.ref_str(C14.UNDEF, self.uk))
+            return
+        params, body = ctx.macros[n[1]]
+        defaults = {}
+        for p, d in params:
+            defaults[p] = d                     # a repeated parameter: first position, last default
+        names = list(defaults)
+        pos = [e for k, e in n[2] if k == ""]
+        kws = [(k, e) for k, e in n[2] if k != ""]
+        scope = {"args": [self.expr(ctx, e) for e in pos[len(names):]], "kwargs": {}}
+        surplus = {}
+        for k, e in kws:
+            if k not in names:
+                surplus[k] = e
+        scope["kwargs"] = {k: self.expr(ctx, e) for k, e in surplus.items()}
+        for i, p in enumerate(names):
+            chosen = defaults[p]
+            if i < len(pos):
+                chosen = pos[i]
+            for k, e in kws:
+                if k == p:
+                    chosen = e
+            scope[p] = C14.UNDEF if chosen is None else self.expr(ctx, chosen)
+        sub = C14.RCtx([scope] + ctx.base, ctx.base, True)
+        sub.macros = dict(ctx.macros)
+        self.block(sub, body, buf)
+
+
+def reference27(case):
+    try:
+        return Ref27(case).run()
+    except C14.Unsure:
+        return None
+
+
+def probe_macro(name, params, extra=()):
+    """A macro printing its parameters, args and kwargs, and the names x / a as its block sees them."""
+    body = [text("<")]
+    for p, _ in params:
+        body += [text(p + "="), out(p), text(";")]
+    body += [text("args="), ("for", "v", ("ipath", P("args")), [out("v"), text(",")], []), text(";kwargs="),
+             ("for", "kv", ("ipath", P("kwargs")), [out(P("kv", 0)), text("="), out(P("kv", 1)), text(",")], []),
+             text(";x="), out("x")] + list(extra) + [text(">")]
+    return ("macro", name, params, body)
+
+
+EXPRS = [lit(7), lit("s"), lit(True), lit(None), P("x"), P("a"), P("b"), P("y", 0), P("y"), P("h", "k"), P("h"), P("t"), P("n"),
+         P("nosuch"), P("y", "size"), P("w")]
+
+
+def gen_progs(ck: Check):
+    """(family, body, loader) triples; every one is run in strict and lax mode with the default and the strict undefined type."""
+    rng = ck.rng
+    m2 = [("a", None), ("b", P("x"))]
+
+    # ---- defaults: evaluated where the call stands, when it is rendered -- not where / when the macro was defined, and not
+    #      in the macro's own scope (an earlier parameter of the same macro is NOT visible to a default)
+    for d in (P("x"), P("a"), P("w"), P("nosuch"), lit("D"), P("y", 1), P("h", "n")):
+        mac = probe_macro("m", [("a", None), ("b", d)])
+        for given in ([], [("", lit(1))], [("", lit(1)), ("", lit(2))], [("b", lit(3))], [("a", P("b"))]):
+            call = ("call", "m", given)
+            yield "default", [mac, call], {}
+            yield "default", [mac, assign("x", lit("Lx")), call, assign("x", lit("Lx2")), assign("w", lit("Lw")), call], {}
+            yield "default", [mac, ("with", [("x", lit("Wx")), ("w", P("x"))], [call]), call], {}
+            yield "default", [mac, ("for", "x", ("irange", 1, 2), [call], []), call], {}
+            yield "default", [("for", "x", ("irange", 1, 2), [mac], []), ("capture", "w", [text("cap")]), call], {}
+            yield "default", [("with", [("x", lit("Wdef"))], [mac]), call], {}
+
+    # ---- keyword / positional / duplicate names / args, kwargs: mixed value types, arguments interleaved
+    kwn = ["a", "b", "q", "r"]
+    n_rand = 250 if ck.quick else 3000
+    for _ in range(n_rand):
+        np_ = rng.randrange(0, 4)
+        params = [(PARAM_NAMES[i], rng.choice(EXPRS) if rng.random() < 0.4 else None) for i in range(np_)]
+        if rng.random() < 0.08 and params:
+            params.append((rng.choice(["args", "kwargs", params[0][0]]), rng.choice([None, lit("dd")])))
+        args = [("", rng.choice(EXPRS)) for _ in range(rng.randrange(0, 5))] + \
+               [(rng.choice(kwn), rng.choice(EXPRS)) for _ in range(rng.randrange(0, 4))]
+        rng.shuffle(args)
+        yield "bind", [probe_macro("m", params), ("call", "m", args)], {}
+
+    # ---- the macro table: redefinition, call before definition, definition in a branch that is not rendered
+    one, two = ("macro", "m", [("a", lit(1))], [text("one:"), out("a")]), ("macro", "m", [("a", lit(2)), ("b", None)], [text("two:"), out("a"), out("b")])
+    call = ("call", "m", [("", lit("p")), ("", lit("q"))])
+    yield "table", [one, call, two, call], {}
+    yield "table", [call, text("|"), one, call], {}
+    yield "table", [one, two, call, one, call], {}
+    yield "table", [("if", ("atom", ("truthy", P("n"))), [one], [two]), call], {}
+    yield "table", [("if", ("atom", ("truthy", P("t"))), [one], [two]), call], {}
+    yield "table", [one, ("for", "i", ("irange", 1, 2), [call, two], []), call], {}
+    yield "table", [("call", "nomac", []), text("|after")], {}
+    yield "table", [text("a"), ("with", [("x", lit(1))], [out("x"), ("call", "nomac", [("", P("x"))]), out("x")]), out("x")], {}
+    yield "table", [("capture", "m", [text("captured")]), ("call", "m", []), out("m")], {}       # variables and macros are separate tables
+
+    # ---- partials: include shares the macro table, render does not; include is disabled in a macro's block
+    ld = {"defs": [("macro", "m", [("a", None)], [text("P:"), out("a"), out("x")]), text("(defs)")],
+          "calls": [text("(calls:"), ("call", "m", [("", lit("c"))]), text(")")],
+          "inc": [text("I")]}
+    cm = ("call", "m", [("", lit("v"))])
+    yield "partial", [("include", "defs", None, []), cm], ld
+    yield "partial", [("render", "defs", None, []), cm], ld
+    yield "partial", [cm, ("include", "defs", None, [("x", lit("ix"))]), cm, ("render", "calls", None, []), ("include", "calls", None, [])], ld
+    yield "partial", [("macro", "m", [("a", None)], [text("T:"), out("a")]), ("include", "calls", None, []), ("render", "calls", None, []), ("include", "defs", None, []), cm], ld
+    yield "partial", [("macro", "m", [], [text("["), ("include", "inc", None, []), text("]")]), text("a"), ("call", "m", []), text("b")], ld
+    yield "partial", [("macro", "m", [], [text("["), ("render", "inc", None, []), text("]")]), ("call", "m", [])], ld
+    yield "partial", [("for", "i", ("irange", 1, 2), [("include", "defs", None, []), cm], [])], ld
+
+    # ---- a call inside a macro's block: the macros defined so far are visible, definitions made inside stay inside
+    inner = ("macro", "i", [("v", None)], [text("i:"), out("v")])
+    yield "nested", [inner, ("macro", "o", [("w", None)], [text("o("), ("call", "i", [("", P("w"))]), text(")")]), ("call", "o", [("", lit(5))])], {}
+    yield "nested", [("macro", "o", [("w", None)], [text("o("), ("call", "i", [("", P("w"))]), text(")")]), ("call", "o", [("", lit(5))]), inner, ("call", "o", [("", lit(6))])], {}
+    yield "nested", [("macro", "o", [], [inner, ("call", "i", [("", lit(1))])]), ("call", "o", []), text("|"), ("call", "i", [("", lit(2))])], {}
+    yield "nested", [("macro", "r", [("k", None)], [out("k"), ("if", ("atom", ("lt", P("k"), 3)), [("call", "r", [("", lit(3))])], [])]), ("call", "r", [("", lit(1))])], {}
+    yield "nested", [inner, ("macro", "o", [], [("macro", "i", [], [text("local")]), ("call", "i", [])]), ("call", "o", []), ("call", "i", [("", lit(9))])], {}
+
+    # ---- with: arguments evaluated outside, left to right, none sees another; restored after an error inside (lax mode)
+    probes = [text("["), out("x"), text(","), out("w"), text("]")]
+    for bad in ([out("nosuch")], [("include", "nosuch", None, [])], [("break",)], [("call", "nomac", [])], [("macro", "mm", [], [("include", "inc", None, [])]), ("call", "mm", [])]):
+        yield "with", probes + [("with", [("x", lit(1)), ("w", P("x"))], probes + [("with", [("x", lit(2)), ("w", P("x"))], probes + bad + probes)] + probes)] + probes, {"inc": [text("I")]}
+    yield "with", [("with", [("x", lit(1)), ("x", P("x")), ("w", P("x"))], probes)] + probes, {}
+    yield "with", [("with", [("w", P("nosuch", "q", "r")), ("x", lit(1))], probes)] + probes, {}
+    yield "with", [("with", [("x", P("y", 0)), ("w", P("h"))], probes + [assign("x", lit("A"))] + probes)] + probes, {}
+
+    # ---- ONE call node executed repeatedly while the macro is redefined in between: the binding follows the definition that
+    #      is current at each execution (same parameter names, other defaults; other names; defaults added / removed)
+    sigs = [[("a", None), ("b", lit("one"))], [("a", None), ("b", lit("two"))], [("a", None), ("b", lit("two")), ("c", lit("zed"))],
+            [("a", None), ("b", None)], [("a", lit("A")), ("b", P("x"))], [("b", None), ("a", lit("swapped"))], [("a", None), ("b", P("i"))]]
+    shapes = [[("", P("i"))], [], [("b", lit("kb"))], [("", P("i")), ("", lit(2)), ("", lit(3))], [("c", lit("kc")), ("", P("i"))]]
+    for calls in (shapes[:2] if ck.quick else shapes):
+        call = ("call", "m", calls)
+        for s1, s2 in itertools.permutations(sigs, 2):
+            d1, d2 = probe_macro("m", s1), probe_macro("m", s2)
+            first = ("atom", ("eq", P("i"), 1))
+            yield "reuse", [("for", "i", ("irange", 1, 3), [("if", first, [d1], [d2]), call], [])], {}
+        for s1, s2 in itertools.combinations(sigs, 2):
+            d1, d2 = probe_macro("m", s1), probe_macro("m", s2)
+            yield "reuse", [d1, ("for", "i", ("irange", 1, 2), [call, d2], []), call], {}
+            yield "reuse", [d1, ("for", "i", ("irange", 1, 2), [("include", "callm", None, []), d2], [])], {"callm": [call]}
+            yield "reuse-inner", [d1, ("macro", "o", [], [call]), ("call", "o", []), d2, ("call", "o", [])], {}
+
+    # ---- seeded random programs mixing all of it
+    def rbody(depth, names):
+        """names: the macros this body may define or call; a macro's block gets a strictly shorter list, so no call chain is endless"""
+        nodes = []
+        for _ in range(rng.randrange(1, 5)):
+            r = rng.random()
+            if r < 0.2 and names:
+                i = rng.randrange(len(names))
+                params = [(PARAM_NAMES[j], rng.choice(EXPRS) if rng.random() < 0.5 else None) for j in range(rng.randrange(0, 3))]
+                extra = rbody(depth + 1, names[:i]) if depth < 2 and rng.random() < 0.5 else []
+                nodes.append(probe_macro(names[i], params, extra))
+            elif r < 0.5:
+                args = [("", rng.choice(EXPRS)) for _ in range(rng.randrange(0, 3))] + [(rng.choice(kwn), rng.choice(EXPRS)) for _ in range(rng.randrange(0, 3))]
+                rng.shuffle(args)
+                nodes.append(("call", rng.choice(names + ["nomac"]) if rng.random() < 0.15 or not names else rng.choice(names), args))
+            elif r < 0.6:
+                nodes.append(assign(rng.choice(["x", "w", "a"]), rng.choice(EXPRS)))
+            elif r < 0.75 and depth < 3:
+                nodes.append(("with", [(rng.choice(["x", "w", "a"]), rng.choice(EXPRS)) for _ in range(rng.randrange(1, 3))], rbody(depth + 1, names)))
+            elif r < 0.82 and depth < 3:
+                nodes.append(("for", rng.choice(["x", "i"]), ("irange", 1, 2), rbody(depth + 1, names), []))
+            elif r < 0.88:
+                nodes.append(rng.choice([("include", "rdefs", None, []), ("render", "rdefs", None, []), ("include", "inc", None, []), ("include", "nosuch", None, [])]))
+            elif r < 0.93:
+                nodes.append(out(rng.choice(["x", "w", "nosuch"])))
+            else:
+                nodes.append(text("."))
+        return nodes
+
+    rld = {"rdefs": [("macro", "k", [("a", None)], [text("P:"), out("a"), out("x")]), text("(defs)")], "inc": [text("I")]}
+    for _ in range(150 if ck.quick else 2500):
+        yield "random", rbody(0, ["k", "m", "o"]), rld
+
+
+def gen_twice(ck: Check):
+    """(body, loader, [render arguments ...]): ONE parsed template rendered with each argument set in turn; `sel` chooses the
+    definition of m that the render meets before the call."""
+    sigs = [[("a", None), ("b", lit("one"))], [("a", None), ("b", lit("two"))], [("a", None), ("b", lit("two")), ("c", lit("zed"))],
+            [("a", None), ("b", None)], [("b", None), ("a", lit("swapped"))]]
+    runs = [dict(DATA, sel=True), dict(DATA, sel=False, x="Gx2"), dict(DATA, sel=True, x="Gx3")]
+    shapes = [[("", P("x"))], [], [("b", P("x"))], [("", lit(1)), ("", lit(2)), ("", lit(3))]]
+    for calls in (shapes[:2] if ck.quick else shapes):
+        for s1, s2 in itertools.permutations(sigs, 2):
+            body = [("if", ("atom", ("truthy", P("sel"))), [probe_macro("m", s1)], [probe_macro("m", s2)]), ("call", "m", calls)]
+            yield body, {}, runs
+            yield [("include", "defs", None, []), ("call", "m", calls)], \
+                  {"defs": [("if", ("atom", ("truthy", P("sel"))), [probe_macro("m", s1)], [probe_macro("m", s2)])]}, runs
+
+
+def render_many(case, arg_sets, use_async):
+    """Parse case's template ONCE and render that one object with every argument set in turn (public API only)."""
+    from liquid import DictLoader, Environment, Mode
+    import liquid.extra as ex
+
+    srcs = p_sources(case)
+    env = Environment(loader=DictLoader(dict(srcs["partials"])), undefined=L._undefined_class(case["uk"]),
+                      tolerance=Mode.STRICT if case["mode"] == "strict" else Mode.LAX)
+    ex.add_tags(env)
+    try:
+        t = env.from_string(srcs["template"])
+    except Exception as e:  # noqa: BLE001
+        return [("err", classify_exc(e))] * len(arg_sets)
+    res = []
+    for a in arg_sets:
+        try:
+            res.append(("out", run_async(t.render_async(**a)) if use_async else t.render(**a)))
+        except Exception as e:  # noqa: BLE001
+            res.append(("err", classify_exc(e)))
+    return res
+
+
+def run_progs(ck: Check):
+    L.STRINGS.reset()
+    cases, expected, meta = [], [], []
+    reported = {}
+    all4 = [(m, u) for m in ("strict", "lax") for u in ("default", "strict")]
+    nth = 0
+    for fam, body, loader in gen_progs(ck):
+        nth += 1
+        combos = all4
+        if ck.quick and fam in ("reuse", "reuse-inner", "bind", "default"):
+            combos = [all4[0], all4[3]] if nth % 2 else [all4[1], all4[2]]
+        for mode, uk in combos:
+            if True:
+                case = L.mk_case(body, loader=loader, args=DATA, mode=mode, uk=uk)
+                s = p_render(case, False)
+                a = p_render(case, True)
+                want = reference27(case)
+                ck.note_case(("prog", fam, mode, uk, repr(body)), nontrivial=True)
+                ck.count(f"prog.{fam}.{mode}.{uk}")
+                bad = s != a or (want is not None and s != want)
+                if bad and reported.get(fam, 0) < 3:
+                    reported[fam] = reported.get(fam, 0) + 1
+                    src = p_sources(case)
+                    ck.violation("impl-violation", f"prog:{fam}:" + src["template"][:160],
+                                 f"{src} mode={mode} undefined={uk}: sync={s} async={a} documented={want}",
+                                 {"type": "prog", "case": p_json(case), "sync": s, "async": a, "reference": want})
+                cases.append(L.g_case(case))
+                expected.append(L.g_obs(s))
+                meta.append((fam, case, s, bad))
+    for body, loader, arg_sets in gen_twice(ck):
+        for mode, uk in (("strict", "default"), ("lax", "strict")):
+            case0 = L.mk_case(body, loader=loader, args=arg_sets[0], mode=mode, uk=uk)
+            ss = render_many(case0, arg_sets, False)
+            aa = render_many(case0, arg_sets, True)
+            for j, a in enumerate(arg_sets):
+                case = L.mk_case(body, loader=loader, args=a, mode=mode, uk=uk)
+                want = reference27(case)
+                fresh = p_render(case, False)
+                ck.note_case(("twice", mode, uk, j, repr(body)), nontrivial=True)
+                ck.count(f"prog.twice.{mode}.{uk}")
+                bad = ss[j] != aa[j] or ss[j] != fresh or (want is not None and ss[j] != want)
+                if bad and reported.get("twice", 0) < 3:
+                    reported["twice"] = reported.get("twice", 0) + 1
+                    src = p_sources(case)
+                    ck.violation("impl-violation", "prog:twice:" + src["template"][:160],
+                                 f"{src} mode={mode} undefined={uk}: render number {j + 1} of ONE template object (sel={a['sel']}): sync={ss[j]} "
+                                 f"async={aa[j]}; a freshly parsed template gives {fresh}; documented={want}",
+                                 {"type": "twice", "case": p_json(case0), "arg_sets": arg_sets, "index": j, "sync": ss[j], "async": aa[j],
+                                  "fresh": fresh, "reference": want})
+                cases.append(L.g_case(case))
+                expected.append(L.g_obs(ss[j]))
+                meta.append(("twice", case, ss[j], bad))
+    ck.sample({"template": p_sources(meta[len(meta) // 3][1]), "output": meta[len(meta) // 3][2]})
+    chunk = max(60, -(-len(cases) // 4))
+    mm = ck.coq_mismatches("prog", PIMPORTS, "mrun_case", "res_str_eqb", "case", "res str", cases, expected, chunk=chunk,
+                           preamble=L.STRINGS.preamble())
+    ck.traces += len(cases)
+    shown = 0
+    for i in mm:
+        fam, case, s, bad = meta[i]
+        if bad or shown >= 3:
+            continue
+        shown += 1
+        model = ck.coq_eval(PIMPORTS, [f"mrun_case {L.g_case(case)}"], preamble=L.STRINGS.preamble())[0]
+        ck.violation("correspondence", "c27-prog-correspondence",
+                     f"model MacroCall.mrun_case and the implementation disagree on {p_sources(case)} mode={case['mode']} undefined={case['uk']} ({fam})",
+                     {"type": "prog", "case": p_json(case), "impl": s, "model": model,
+                      "broken": "correspondence MacroCall.mrun_case ~ macro/call/with rendering (theorems C27_call_*, C27_macro_*, C27_with_*)"},
+                     no_input=True)
+
+
 def run(ck: Check) -> None:
     ck.rule = (
         "macro calls: every signature with 0..3 parameters (each with or without a default) x 0..4 positional x every sequence of 0..3 "
         "keyword arguments over {a,b,x,y} (matching, non-matching, duplicate), positional/keyword interleaved in the source, values partly "
-        "given through caller variables (exhaustive); with blocks: systematic shadowing/evaluation-order probes plus seeded random nests "
-        "(depth<=3) with assign. Non-trivial = at least one argument is bound; distinct = distinct case."
+        "given through caller variables (exhaustive, integer values); with blocks: systematic shadowing/evaluation-order probes plus seeded "
+        "random nests (depth<=3) with assign; call tags whose argument list lacks a comma or uses = (strict mode: every ordered choice of "
+        "2..3 of five arguments x every comma/blank separator pattern); PROGRAMS over nil/boolean/integer/string/array/hash values, each in "
+        "strict and lax mode with the default and the strict undefined type: defaults read in every kind of caller scope (assign before and "
+        "after the definition, with, for, capture) and naming an earlier parameter; seeded signatures with mixed-type arguments, parameters "
+        "named args/kwargs or repeated; macro defined twice / after the call / in an untaken branch; undefined macro; macro defined in an "
+        "included or rendered partial and called outside, and the reverse; include inside a macro; calls inside a macro's block (outer, "
+        "later, local and recursive macros); ONE call node run repeatedly (for loop, included partial, macro block) while the macro is "
+        "redefined with the same or other parameter names and defaults (every ordered pair of 7 signatures), and ONE parsed template "
+        "rendered three times with data selecting the definition; with: arguments reading each other, errors inside nested blocks (undefined "
+        "value, missing partial, break, undefined macro, disabled include); seeded random programs mixing all of it. Non-trivial = at "
+        "least one argument is bound / the program holds a call or a with; distinct = distinct case."
     )
     ck.exhaustive = True
     ck.trusted_base = [
         "Coq 8.16.1 kernel + vm_compute",
-        "harness: generators, source printers, Gallina printers, reference binder/resolver (props/c27.py)",
-        "modelled not verified: Python dict insertion order, itertools.zip_longest, the argument parser for the generated subset",
+        "harness: generators, source printers, Gallina printers (scope_lib), reference binder/resolver and the reference interpreter Ref27 "
+        "on top of C14's (props/c27.py, props/c14.py)",
+        "modelled not verified: Python dict insertion order, itertools.zip_longest, the argument parser for the generated subset (a missing "
+        "comma is judged by the reference only: parsing is not in the model); expression evaluation and the render context are the model "
+        "of Scope.v (C14-C16), reused",
     ]
-    ck.assumptions = ["argument values are integers; parameters are not named args/kwargs; expression evaluation itself belongs to C14"]
+    ck.assumptions = ["filters are not used in arguments (the argument grammar has none); resource limits at their defaults; macro recursion "
+                      "bounded by the generators (an endless chain ends in ContextDepthError, outside the model)"]
     ck.proof()
 
     cases, expected, meta = [], [], []
@@ -311,9 +735,62 @@ def run(ck: Check) -> None:
                      {"type": "with", "template": src, "data": globs, "impl": s, "model": model,
                       "broken": "correspondence MacroArgs.run_with ~ with-tag rendering (theorem C27_with_scoped)"}, no_input=True)
 
+    reported = 0
+    for args, seps in gen_seps():
+        src = sep_source(args, seps)
+        data = {"y": 905}
+        sres = render(src, data, False)
+        ares = render(src, data, True)
+        want = sep_reference(args, seps)
+        ck.note_case(("sep", tuple(args), tuple(seps)), nontrivial=True)
+        ck.count("sep." + ("commas" if want[0] == "out" else "gap"))
+        ck.traces += 1
+        if (sres != ares or sres != want) and reported < 3:
+            reported += 1
+            ck.violation("impl-violation", "call-arguments:" + repr((args, seps))[:160],
+                         f"{src!r} (strict mode): sync={sres} async={ares} documented={want}: a call tag's argument list is comma separated; "
+                         "arguments after a missing comma must not be dropped silently",
+                         {"type": "call", "template": src, "data": data, "sync": sres, "async": ares, "reference": want[1] if want[0] == "out" else None,
+                          "expect_error": want[0] == "err"})
+
+    run_progs(ck)
+
 
 def replay(data) -> int:
     case = data["case"]
+    if case.get("type") == "twice":
+        d = case["case"]
+        from liquid import DictLoader, Environment, Mode
+        import liquid.extra as ex
+        env = Environment(loader=DictLoader(dict(d["partials"])), undefined=L._undefined_class(d["uk"]),
+                          tolerance=Mode.STRICT if d["mode"] == "strict" else Mode.LAX)
+        ex.add_tags(env)
+        t = env.from_string(d["template"])
+        outs = []
+        for a in case["arg_sets"]:
+            try:
+                outs.append(["out", t.render(**a)])
+            except Exception as e:  # noqa: BLE001
+                outs.append(["err", classify_exc(e)])
+        fresh = L.render_sources(d["template"], d["partials"], case["arg_sets"][case["index"]], {}, {}, {}, d["mode"], d["uk"], False)
+        print("template:", d["template"], "partials:", d["partials"])
+        print("renders of one template object:", outs)
+        print("fresh parse, render", case["index"] + 1, ":", fresh)
+        bad = tuple(outs[case["index"]]) != tuple(fresh)
+        print(("VIOLATION reproduced" if bad else "not reproduced") + f" property={data['property']}")
+        return 1 if bad else 0
+    if case.get("type") == "prog":
+        d = case["case"]
+        s = L.render_json(d, False)
+        a = L.render_json(d, True)
+        print("template:", d["template"], "partials:", d["partials"], "mode:", d["mode"], "undefined:", d["uk"])
+        print("sync :", s)
+        print("async:", a)
+        print("documented:", case.get("reference"))
+        ref = case.get("reference")
+        bad = s != a or (ref is not None and s != tuple(ref))
+        print(("VIOLATION reproduced" if bad else "not reproduced") + f" property={data['property']}")
+        return 1 if bad else 0
     if case.get("type") not in ("call", "with"):
         print("replay names a proof/correspondence obligation:", case)
         return 1
@@ -323,6 +800,9 @@ def replay(data) -> int:
     print("sync :", s)
     print("async:", a)
     print("documented:", case.get("reference"))
-    bad = s != a or s != ("out", case.get("reference"))
+    if case.get("expect_error"):
+        bad = s != a or s != ("err", "ESyntax")
+    else:
+        bad = s != a or s != ("out", case.get("reference"))
     print(("VIOLATION reproduced" if bad else "not reproduced") + f" property={data['property']}")
     return 1 if bad else 0
